@@ -17,7 +17,7 @@ IInit == /\ head = Nil /\ tail = Nil
          /\ prev = [e \in Entries |-> Nil]
          /\ emask = [e \in Entries |-> {}]
          /\ icalls = [e \in CbEntries |-> 0]
-         /\ itoken = [e \in ChEntries |-> 0]
+         /\ itoken = [c \in Chans |-> 0]
 
 (* func (l *List) PushBack(e Element) {
        e.SetNext(nil)
@@ -60,11 +60,16 @@ IUnregister(e) == Remove(e) /\ UNCHANGED <<emask, icalls, itoken>>
 \* callback entry: the harness callback counts; channel entry: non-blocking send on a 1-buffered channel
 Times(e, m) == Cardinality({i \in DOMAIN IList : IList[i] = e /\ emask[e] \cap m # {}})
 INotify(m) == /\ icalls' = [e \in CbEntries |-> icalls[e] + Times(e, m)]
-              /\ itoken' = [e \in ChEntries |-> IF Times(e, m) > 0 THEN 1 ELSE itoken[e]]
+              /\ itoken' = [c \in Chans |-> IF \E e \in ChEntries : chanOf[e] = c /\ Times(e, m) > 0 THEN 1 ELSE itoken[c]]
               /\ UNCHANGED <<head, tail, next, prev, emask>>
+\* NewChannelEntry(ch): a fresh Entry value (next = prev = nil, mask 0) replaces the unregistered e
+INewEntry(e) == /\ next' = [next EXCEPT ![e] = Nil]
+                /\ prev' = [prev EXCEPT ![e] = Nil]
+                /\ emask' = [emask EXCEPT ![e] = {}]
+                /\ UNCHANGED <<head, tail, icalls, itoken>>
 \* non-blocking receive
-ITake(e, ok) == /\ ok = (itoken[e] = 1)
-                /\ itoken' = [itoken EXCEPT ![e] = 0]
+ITake(c, ok) == /\ ok = (itoken[c] = 1)
+                /\ itoken' = [itoken EXCEPT ![c] = 0]
                 /\ UNCHANGED <<head, tail, next, prev, emask, icalls>>
 
 \* ---- invariants: the list is well-formed and equals reg
